@@ -351,15 +351,32 @@ func BuildAll(verifRoot, self string, p *spec.Program) (*Sim, func(), error) {
 	return sim, cleanup, nil
 }
 
-// Check decides property prop at the given tier on the corpus program.
+type progRun struct {
+	name    string
+	prog    *spec.Program
+	sim     *Sim
+	err     error
+	results []*ProcResult
+}
+
+// Check decides property prop at the given tier: the corpus program plus seeded random programs.
 func Check(verifRoot, self, prop, tier string, seed uint64) (*Result, error) {
 	start := time.Now()
-	p := spec.Corpus()
-	sim, cleanup, err := BuildAll(verifRoot, self, p)
+	work, err := os.MkdirTemp("", "verif-convsim-")
 	if err != nil {
 		return nil, err
 	}
-	defer cleanup()
+	defer func() {
+		if os.Getenv("VERIF_KEEP") != "" {
+			fmt.Fprintln(os.Stderr, "kept scratch directory", work)
+			return
+		}
+		os.RemoveAll(work)
+	}()
+	pluginBin := filepath.Join(work, "plugin.plain")
+	if err := pipeline.BuildPlugin(pluginBin, ""); err != nil {
+		return nil, err
+	}
 	findings, err := LoadFindings(verifRoot)
 	if err != nil {
 		return nil, err
@@ -370,86 +387,130 @@ func Check(verifRoot, self, prop, tier string, seed uint64) (*Result, error) {
 			known = append(known, f.Signature)
 		}
 	}
-	checks, steps := 400, 8
+	checks, steps, nRandom, rchecks := 400, 8, 2, 150
 	if tier == "thorough" {
-		checks, steps = 4000, 20
+		checks, steps, nRandom, rchecks = 4000, 20, 14, 800
 	}
 	if v := os.Getenv("VERIF_CHECKS"); v != "" {
 		if n, err := strconv.Atoi(v); err == nil {
-			checks = n
+			checks, rchecks = n, n
 		}
 	}
-	type job struct{ root string }
-	var wg sync.WaitGroup
-	results := make([]*ProcResult, len(sim.Roots))
-	sem := make(chan struct{}, runtime.NumCPU()/2+1)
-	if only := os.Getenv("VERIF_ONLY_ROOTS"); only != "" {
-		sim.Roots = strings.Split(only, ",")
-		results = make([]*ProcResult, len(sim.Roots))
+	if v := os.Getenv("VERIF_RANDOM_PROGRAMS"); v != "" {
+		if n, err := strconv.Atoi(v); err == nil {
+			nRandom = n
+		}
 	}
-	for i, r := range sim.Roots {
+	runs := []*progRun{{name: "corpus", prog: spec.Corpus()}}
+	for i := 0; i < nRandom; i++ {
+		ps := seed*1000003 + uint64(i)*7919 + 17
+		runs = append(runs, &progRun{name: fmt.Sprintf("random-%d", ps), prog: spec.RandomProgram(ps, spec.RandomOpts{Conv: true})})
+	}
+	if only := os.Getenv("VERIF_ONLY_ROOTS"); only != "" {
+		runs = runs[:1]
+		runs[0].prog.Config.Types = strings.Split(only, ",")
+	}
+	sem := make(chan struct{}, runtime.NumCPU()/2+1)
+	var wg sync.WaitGroup
+	for pi, pr := range runs {
 		wg.Add(1)
-		go func(i int, r string) {
+		go func(pi int, pr *progRun) {
 			defer wg.Done()
+			pw := filepath.Join(work, fmt.Sprintf("prog%d", pi))
+			os.MkdirAll(pw, 0o755)
 			sem <- struct{}{}
-			defer func() { <-sem }()
-			results[i] = sim.RunProc(RunOpts{Prop: prop, Root: r, Seed: seed + uint64(i)*1000003, Checks: checks, Steps: steps, Known: known})
-		}(i, r)
+			pr.sim, pr.err = Assemble(verifRoot, self, pluginBin, pr.prog, pw)
+			<-sem
+			if pr.err != nil {
+				return
+			}
+			n := checks
+			if pi > 0 {
+				n = rchecks
+			}
+			pr.results = make([]*ProcResult, len(pr.sim.Roots))
+			var wg2 sync.WaitGroup
+			for i, r := range pr.sim.Roots {
+				wg2.Add(1)
+				go func(i int, r string) {
+					defer wg2.Done()
+					sem <- struct{}{}
+					defer func() { <-sem }()
+					pr.results[i] = pr.sim.RunProc(RunOpts{Prop: prop, Root: r, Seed: seed + uint64(pi)*7777 + uint64(i)*1000003, Checks: n, Steps: steps, Known: known})
+				}(i, r)
+			}
+			wg2.Wait()
+		}(pi, pr)
 	}
 	wg.Wait()
 
 	res := &Result{}
 	total := &Stats{Ops: map[string]int{}, Faults: map[string]int{}, Probes: map[string]int{}, KnownHits: map[string]int{}}
 	cov := [2]int{}
-	perRoot := map[string]interface{}{}
-	for _, r := range results {
-		if r.Err != nil {
-			return nil, &pipeline.BuildError{What: "simulator run failed", Out: r.Err.Error()}
+	perProg := map[string]interface{}{}
+	var dropped []string
+	outRoot := verifRoot
+	if v := os.Getenv("VERIF_EVIDENCE_ROOT"); v != "" {
+		outRoot = v
+	}
+	for pi, pr := range runs {
+		if pr.err != nil {
+			if pi == 0 {
+				return nil, pr.err // the corpus must build
+			}
+			// a random program whose generated code does not build is a C01 matter: dropped and counted
+			dropped = append(dropped, pr.name+": "+firstLine(pr.err.Error()))
+			continue
 		}
-		if r.Stats != nil {
-			total.Iterations += r.Stats.Iterations
-			total.NClasses += r.Stats.NClasses
-			for k, v := range r.Stats.Ops {
-				total.Ops[k] += v
+		perRoot := map[string]interface{}{}
+		for _, r := range pr.results {
+			if r.Err != nil {
+				return nil, &pipeline.BuildError{What: "simulator run failed", Out: r.Err.Error()}
 			}
-			for k, v := range r.Stats.Faults {
-				total.Faults[k] += v
+			if r.Stats != nil {
+				total.Iterations += r.Stats.Iterations
+				total.NClasses += r.Stats.NClasses
+				for k, v := range r.Stats.Ops {
+					total.Ops[k] += v
+				}
+				for k, v := range r.Stats.Faults {
+					total.Faults[k] += v
+				}
+				for k, v := range r.Stats.Probes {
+					total.Probes[k] += v
+				}
+				for k, v := range r.Stats.KnownHits {
+					total.KnownHits[k] += v
+				}
+				if len(total.Samples) < 8 {
+					total.Samples = append(total.Samples, r.Stats.Samples...)
+				}
+				perRoot[r.Root] = map[string]int{"iterations": r.Stats.Iterations, "history_classes": r.Stats.NClasses}
 			}
-			for k, v := range r.Stats.Probes {
-				total.Probes[k] += v
+			if c, ok := r.Cover["p_terraform.go"]; ok && pi == 0 {
+				// per-process coverage of the same file: the maximum is a lower bound of the union
+				if c[0] > cov[0] {
+					cov = c
+				}
 			}
-			for k, v := range r.Stats.KnownHits {
-				total.KnownHits[k] += v
+			if r.Signature != "" {
+				res.NViol++
+				rp := &Replay{Property: prop, Engine: "convsim", Signature: r.Signature, Root: r.Root, Seed: seed, Tier: tier, Steps: steps,
+					Program: pr.prog, FailFile: r.FailFile, Detail: r.Detail}
+				dir := filepath.Join(outRoot, "evidence", "replay")
+				os.MkdirAll(dir, 0o755)
+				path := filepath.Join(dir, fmt.Sprintf("%s-%d-%s-%s.json", prop, seed, pr.name, r.Root))
+				b, _ := json.MarshalIndent(rp, "", " ")
+				if err := os.WriteFile(path, b, 0o644); err != nil {
+					return nil, err
+				}
+				if len(res.Violations) < 8 {
+					res.Violations = append(res.Violations, rp)
+					res.Paths = append(res.Paths, path)
+				}
 			}
-			if len(total.Samples) < 8 {
-				total.Samples = append(total.Samples, r.Stats.Samples...)
-			}
-			perRoot[r.Root] = map[string]int{"iterations": r.Stats.Iterations, "history_classes": r.Stats.NClasses}
 		}
-		if c, ok := r.Cover["p_terraform.go"]; ok {
-			// per-process coverage of the same file: take the max as a lower bound of the union
-			if c[0] > cov[0] {
-				cov = c
-			}
-		}
-		if r.Signature != "" {
-			res.NViol++
-			rp := &Replay{Property: prop, Engine: "convsim", Signature: r.Signature, Root: r.Root, Seed: seed, Tier: tier, Steps: steps,
-				Program: p, FailFile: r.FailFile, Detail: r.Detail}
-			outRoot := verifRoot
-			if v := os.Getenv("VERIF_EVIDENCE_ROOT"); v != "" {
-				outRoot = v
-			}
-			dir := filepath.Join(outRoot, "evidence", "replay")
-			os.MkdirAll(dir, 0o755)
-			path := filepath.Join(dir, fmt.Sprintf("%s-%d-%s.json", prop, seed, r.Root))
-			b, _ := json.MarshalIndent(rp, "", " ")
-			if err := os.WriteFile(path, b, 0o644); err != nil {
-				return nil, err
-			}
-			res.Violations = append(res.Violations, rp)
-			res.Paths = append(res.Paths, path)
-		}
+		perProg[pr.name] = perRoot
 	}
 	for _, f := range findings {
 		if f.Property == prop && f.Status == "known" && total.KnownHits[f.Signature] > 0 {
@@ -473,8 +534,10 @@ func Check(verifRoot, self, prop, tier string, seed uint64) (*Result, error) {
 		"faults_fired":                 total.Faults,
 		"probes":                       total.Probes,
 		"known_findings_met":           total.KnownHits,
-		"per_root":                     perRoot,
-		"rapid_checks_per_root":        checks,
+		"programs":                     len(runs) - len(dropped),
+		"random_programs_dropped":      dropped,
+		"per_program_and_root":         perProg,
+		"rapid_checks_per_root":        map[string]int{"corpus": checks, "random": rchecks},
 		"max_steps_per_history":        steps,
 		"histories_per_hour":           int(float64(total.Iterations) / res.Wall * 3600),
 		"simulated_time":               "none: the converters have no clock; progress is counted in operations",
@@ -482,12 +545,19 @@ func Check(verifRoot, self, prop, tier string, seed uint64) (*Result, error) {
 		"generated_code_covered_lower": cov[0],
 		"exhaustive":                   false,
 		"components": map[string]interface{}{
-			"real": []string{"generated converters and schema of the corpus program (plugin built from /repo's working tree)", "gogo-generated structs",
+			"real": []string{"generated converters and schema of each program (plugin built from /repo's working tree)", "gogo-generated structs",
 				"terraform-plugin-framework value types v0.10.0", "tftypes + msgpack DynamicValue codec (restart)"},
 			"stub": []string{"Terraform core / framework request plumbing (decode, plan derivation, persistence)", "provider glue owning the long-lived object and struct", "remote API (reference structs)"},
 		},
 	}
 	return res, nil
+}
+
+func firstLine(s string) string {
+	if i := strings.IndexByte(s, '\n'); i >= 0 {
+		return s[:i]
+	}
+	return s
 }
 
 // ReplayFile re-executes a convsim replay file against the current tree.
